@@ -238,7 +238,9 @@ impl Session {
                     Ok(s) => s,
                     Err(e) => return json!({"err": format!("prepare: {:#}", e)}),
                 };
-                let ps: Vec<OwnedValue> = op["params"].as_array().unwrap().iter().map(json_to_val).collect();
+                let ps1: Vec<OwnedValue> = op["params"].as_array().unwrap().iter().map(json_to_val).collect();
+                // "params2": the bindings of every execution after the first (a re-bound cached plan)
+                let ps2: Option<Vec<OwnedValue>> = op["params2"].as_array().map(|a| a.iter().map(json_to_val).collect());
                 let times = op["times"].as_u64().unwrap_or(1);
                 let mut last = Value::Null;
                 let mut prev: Vec<Value> = Vec::new(); // results of the earlier executions (times > 1), reported as "prev"
@@ -246,6 +248,7 @@ impl Session {
                     if round > 0 {
                         prev.push(last.clone());
                     }
+                    let ps: &Vec<OwnedValue> = if round > 0 { ps2.as_ref().unwrap_or(&ps1) } else { &ps1 };
                     if ps.is_empty() {
                         return json!({"err": "prepared without parameters is not driven"});
                     }
